@@ -4,6 +4,7 @@
      path 1  SocketStreamTransport.send_all_from_iterable(chunks, T)  socket has sendmsg, SC_IOV_MAX = iov
      path 2  send_all_from_iterable on a socket without sendmsg / SSLStreamTransport (join + send_all)
      path 3  AsyncTLSStreamTransport.__write_all_to_ssl_object backlog loop (see IO/TlsWrite.v)
+     path 4  asyncio adapter (writelines + drain): outcome and wire only
      tmo     = L [] (math.inf) | L [A ticks]
      sock answer = L [A kind; A n; A cost]   kind 0 Sent n | 1,2 would-block-on-write | 3,4 would-block-on-read | 5 connection error
      sel answer  = L [A ready; A elapsed]
@@ -55,6 +56,17 @@ Definition run (i : sx) : sx :=
       else if path =? 1 then of_sres (send_iter sendmsg_drops_empty_views true iov F F ri chunks T s sels)
       else if path =? 2 then of_sres (send_iter sendmsg_drops_empty_views false iov F F ri chunks T s sels)
       else if path =? 3 then of_sres (tls_flush F chunks s)
+      else if path =? 4 then
+        (* asyncio adapter: writelines + drain; only the outcome and the bytes that reach the socket are compared *)
+        match chunks with
+        | [] =>
+            (* CPython 3.12.1 asyncio: _SelectorSocketTransport.writelines([]) fails `assert self._buffer`
+               (finding F9); a guarded adapter returns without writing *)
+            if asyncio_adapter_guards_empty_iterable then L [A 0; B []; L []; A 0] else L [A 30; B []; L []; A 0]
+        | _ :: _ =>
+            let r := send_all_join F ri F chunks None s [] in
+            L [A (out_code (sr_out r)); B (sk_wire (sr_sock r)); L []; A 0]
+        end
       else bad_input
   | _ => bad_input
   end.
